@@ -275,3 +275,10 @@ package vm
 //@ call clearRefs requires[looked] same(arg0, ctx.sc.static) && !same(arg0, ctx.local) && !same(arg0, ctx.arguments) ==> ncalls("(*VM).Context") == 1
 //@ call clearRefs requires[last] same(arg0, ctx.sc.static) && !same(arg0, ctx.local) && !same(arg0, ctx.arguments) ==> ctx.sc != currCtx.sc
 //@ call clearRefs requires[own] ncalls("(*VM).Context") == 0 ==> same(arg0, ctx.local) || same(arg0, ctx.arguments)
+
+// picoGAS -> datoshi, rounding up (panics on an amount too close to the int64 maximum)
+//@ prop C07
+//@ func PicoGasToDatoshiInt64
+//@ pure
+//@ may-panic
+//@ ensures[ceil] x >= 0 ==> result * ExecFeeFactorMultiplier >= x && (result - 1) * ExecFeeFactorMultiplier < x
